@@ -162,6 +162,13 @@ def run(tier):
                                   "reference parameter compatibility is not symmetric: `%s` %s, `%s` %s" % (
                                       text, "accepted" if acc else "rejected", exprs[j]["text"], "accepted" if acc2 else "rejected"),
                                   {"decl": DECL + fun_decls(), "e1": text, "e2": exprs[j]["text"]})
+                # ... and "exactly when": acceptance of a variable for a reference parameter = equivalence of the two types (SymTyping!RefSem)
+                if acc != cs["sem"]:
+                    key = "c14:ref:const-int-parameter-accepts-any-integer-range" if (cs["pconst"] and cs["b"] == "int" and acc) else \
+                          "c14:ref:%s,%s:%s:%s" % (cs["a"], cs["b"], "const" if cs["pconst"] else "mut", "accepted-not-equivalent" if acc else "rejected-equivalent")
+                    c.finding(key, "a variable of type %s is %s for a %sreference parameter of type %s although the types are %sequivalent: `%s`" % (
+                        TYNAME.get(cs["a"], cs["a"]), "accepted" if acc else "rejected", "const " if cs["pconst"] else "", TYNAME.get(cs["b"], cs["b"]), "" if cs["sem"] else "not ", text),
+                        {"decl": DECL + fun_decls(), "e1": text, "msgs": msgs})
                 if cs["a"] == cs["b"] and not acc:
                     c.finding("c14:ref:%s,%s:%s:same-type-rejected" % (cs["a"], cs["b"], "const" if cs["pconst"] else "mut"),
                               "argument of the parameter's own type rejected for a reference parameter: `%s` (%s)" % (text, msgs),
